@@ -321,7 +321,9 @@ pub fn run_prop(ctx: &Ctx, sink: &mut Sink) {
         for (unit, period, prim) in [("m", 60 * NS, "-mmin"), ("d", 86400 * NS, "-mtime"), ("m", 60 * NS, "-amin")] {
             let dir = ctx.scratch("agetri");
             let now: i128 = 1_900_000_000 * NS + rng.below(1_000_000_000) as i128;
-            let ages: Vec<i128> = vec![0, 1, period / 2, period - 1, period, period + 1, period + period / 2, 2 * period - 1, 2 * period, 2 * period + period / 2, 3 * period + 7, 60 * period + period / 3];
+            let ages: Vec<i128> = vec![0, 1, period / 2, period - 1, period, period + 1, period + period / 2, 2 * period - 1, 2 * period, 2 * period + period / 2, 3 * period + 7, 60 * period + period / 3,
+                // time stamps later than the reference time (a clock that was ahead, -daystart): still exactly one of the three
+                -1, -(period / 2), -period, -(period + 1), -(3 * period) - 5];
             for (i, age) in ages.iter().enumerate() {
                 let p = dir.join(format!("f{i:03}"));
                 std::fs::write(&p, b"").unwrap();
